@@ -252,8 +252,15 @@ def run(pid, tier, records, info):
     units = [u for u in load_units() if pid in u.props() and (tier == "thorough" or u.tier == "quick")]
     if not units:
         return
+    def run_unit_guarded(u):
+        # a unit whose text can no longer be extracted (lost anchor, changed shape) decides nothing ITSELF; the other units' verdicts stand
+        try:
+            return run_unit(u)
+        except Undecided as e:
+            return {"unit": u, "path": None, "cmd": f"(unit {u.name}: extraction undecided)", "wall": 0.0, "rules": {}, "infos": {}, "ranges": {},
+                    "lemmas": u.lemmas, "fn_status": {}, "errors": [], "undecided": f"unit {u.name}: {e}", "raw": "", "smt_ms": 0, "fb": {}}
     with ThreadPoolExecutor(max_workers=8) as pool:
-        results = list(pool.map(run_unit, units))
+        results = list(pool.map(run_unit_guarded, units))
     for r in results:
         info["checker_cmds"].append(r["cmd"])
         for k, v in r["rules"].items():
@@ -265,7 +272,7 @@ def run(pid, tier, records, info):
         info.setdefault("verus_wall_s", 0.0)
         info["verus_wall_s"] = round(info["verus_wall_s"] + r["wall"], 1)
         info.setdefault("assumption_scan", [])
-        info["assumption_scan"] += scan_assumptions(r["path"], r["unit"])
+        info["assumption_scan"] += scan_assumptions(r["path"], r["unit"]) if r["path"] else []
         info.setdefault("unit_assumptions", [])
         info["unit_assumptions"] += r["unit"].assumptions
         info.setdefault("unit_trusted", [])
